@@ -3,6 +3,7 @@
 use crate::core::Check;
 
 pub mod cache;
+pub mod config;
 pub mod delta;
 pub mod history;
 pub mod jsondelta;
@@ -28,6 +29,7 @@ pub fn all() -> Vec<&'static Check> {
         &cache::C28,
         &sched::C33,
         &sched::C34,
+        &config::C35,
         &rtrsrv::C36,
     ]
 }
